@@ -37,6 +37,8 @@ RULE = ('cases = calls of the real functions through the public names, positiona
         'the range of narrow dtypes), arange, lists and tuples of floats, ints or both (c_h_factor); classes C D E (default '
         'and keyword); Z R N uniform in their code ranges, also Python ints and N = 1; displacement as float / np.float64 / '
         'np.float32 / int 0. Every array argument is also passed as strided / reversed / Fortran-ordered view and read-only. '
+        'Every window width 1..min(len,40) in every mode on two records per shard. Extreme scales (4-7 %): series, tables and nodes at '
+        '10^+-(165..300), extreme dynamic range inside one series, ripple on a large baseline, counts above 2**24. '
         'Sizes of every vector argument (nodes, queries, periods) also 1, 2 and 31..33, 63..65, 127..129, 256; queries and periods '
         'unsorted, ascending, descending and with repeated entries; repeated nodes (monotone, not strictly increasing); one table '
         'row / one sample 1e3..1e12 times larger than the rest; series shapes: monotone, one-sided negative, exact zeros inside, '
@@ -57,8 +59,15 @@ ASSUMPTIONS = ['node sets finite and monotone; unsorted node sets are counted, n
                'a window width that is not integer-valued (dt/(dt/k) a hair off k) is outside "window sizes 1..len": counted only',
                'interp2d arguments are numpy arrays with a 2-d table (its documented signature)',
                'interp_left queries below the first node are rejected by the function (outside the domain)',
-               'centred window of even size: the statement does not fix the side of the extra sample, either is accepted '
-               '(odd sizes decide the centring)',
+               'centred window of width w (mode centre / center): samples i - floor(w/2) .. i + ceil(w/2) - 1 with replicated edges, '
+               'i.e. for an EVEN width the extra sample lies before the current one - the convention of the clean tree (s = '
+               'floor(steps/2) leading copies of the first value), required for every width alike; no other placement is accepted '
+               '(an earlier version accepted either side for even widths, which hid a change that moved only w = 2, 6, 10, ...)',
+               'extreme scales (|x| down to 1e-300 / up to 1e300, dynamic range 1e-150..1e150 in one series, ripple on a large '
+               'baseline, counts above 2**24) are in domain for the linear helpers (interp2d tables and nodes to 1e+-250, rolling '
+               'average, step levels, step-fit error with p = 1) in float64 / list / tuple containers; the step-fit error with p = 2 '
+               'squares the samples and is judged only for 1e-150 <= max|x| <= 1e150; design-spectrum periods stay in 1e-9..1e3 s '
+               '(S_d contains T^2); the only absolute tolerance floor is 4e-323 (eight subnormal spacings)',
                'float32 arguments may be processed and returned in float32: judged to 64 eps32 (32 eps32 for the step '
                'levels) instead of 1e-9; a float32 displacement is compared with the corner in float32 (knife edge 4 eps32)',
                'step-fit: p in {1,2}, dir=None; the result array inherits an integer input dtype = open finding '
@@ -81,7 +90,7 @@ _MIN_QUICK = {'interp2d.inside==columnwise-linear': 3000, 'interp2d.on-node==tab
               'interp2d.outside==end-row': 2800, 'interp_left==value-at-greatest-node<=q': 2800,
               'interp_left.on-node-query': 4500, 'interp_left.scalar-query': 4000, 'interp_left.y=None->node-index': 4000,
               'rollav.forward==window-mean': 4000, 'rollav.backward==window-mean': 4000,
-              'rollav.centre==window-mean': 8000, 'rollav.length-kept': 16000, 'rollav.constant-preserved': 2000,
+              'rollav.centre==window-mean': 8000, 'rollav.centre(even-w)==mean(i-w/2..i+w/2-1)': 4000, 'rollav.length-kept': 16000, 'rollav.constant-preserved': 2000,
               'stepfit.error(p=1)==sum|dev|': 2500, 'stepfit.error(p=2)==sum|dev|^2': 2000,
               'stepfit.no-split-entry==whole-series-error': 5000, 'stepfit.levels==side-means': 9000,
               'sd_nzs==c_h*T^2*Z*N*R': 30000, 'c_h_factor*T^2==sd_nzs(unit)': 25000, 'c_h.array==scalar': 1100,
@@ -96,9 +105,9 @@ _MIN_THOROUGH.update({'c_h.continuous(boundaries)': 200, 'sd_nzs.continuous(boun
                       'sd_nzs==c_h*T^2*Z*N*R': 120000, 'c_h_factor*T^2==sd_nzs(unit)': 120000,
                       'args-unchanged(bit-for-bit)': 700000, 'earlier-result-intact-after-next-call': 300000})
 MIN_EVALS = {'quick': _MIN_QUICK, 'thorough': _MIN_THOROUGH}
-EXHAUSTIVE = {'quick': 'continuity scan: every interval of the grid 0(2e-4)0.12(1e-3)6.5 s x classes C,D,E x '
+EXHAUSTIVE = {'quick': 'every window width 1..min(len, 40) x 4 modes on two records per shard; continuity scan: every interval of the grid 0(2e-4)0.12(1e-3)6.5 s x classes C,D,E x '
                        '{c_h_factor, sd_nzs}, bisected to 1e-12 wherever the change exceeds 0.5 %',
-              'thorough': 'continuity scan: every interval of the grid 0(5e-5)0.12(2.5e-4)6.5 s x classes C,D,E x '
+              'thorough': 'every window width 1..min(len, 40) x 4 modes on two records per shard; continuity scan: every interval of the grid 0(5e-5)0.12(2.5e-4)6.5 s x classes C,D,E x '
                           '{c_h_factor, sd_nzs}, bisected to 1e-12 wherever the change exceeds 0.5 %'}
 
 CTX = None
@@ -455,7 +464,7 @@ def check_rollav(ctx, values, steps, mode, result):
     # i - w/2 .. i + w/2 - 1 (the extra sample lies BEFORE the current one); no other placement is accepted
     okk, idx, err, allowed = tol.worst(got, ref, scale=scale, rtol=rt, atol=TINY)
     if mkey == 'centre' and st % 2 == 0:
-        ctx.check(okk, 'rollav.centre(even w)==mean(i-w/2..i+w/2-1)', wit,
+        ctx.check(okk, 'rollav.centre(even-w)==mean(i-w/2..i+w/2-1)', wit,
                   'calc_roll_av_vals(%s..., steps=%d, mode=%r): even centred window is not samples i-%d .. i+%d (edges '
                   'replicated); at %s got %r expected %r' % (x[:8], st, mode, st // 2, st // 2 - 1, idx,
                                                              got[idx] if idx is not None else None,
@@ -1535,6 +1544,25 @@ def drive_rollav(ctx, eqsig, rng, n_cases):
             _roll_call(ctx, eqsig, rng, other, steps, steps, MODES[int(rng.integers(4))])
 
 
+def drive_rollav_all_widths(ctx, eqsig, rng):
+    """EVERY window width w = 1..min(len, 40) in every mode on two records per shard (one of at least 40 samples, one
+    shorter): the placement of the centred window must follow one convention for all even and odd widths."""
+    total = 0
+    for n in (int(rng.integers(40, 46)), int(rng.integers(5, 40))):
+        x, cls = gen.record(rng, n, cls=['noise', 'walk', 'intnoise', 'quake'][int(rng.integers(4))], amp=1.0)
+        if len(set(x.tolist())) < 3:
+            x = rng.normal(size=n)
+        cont = [x, x.tolist(), np.round(x * 7).astype(np.int64)][int(rng.integers(3))]
+        for w in range(1, min(n, 40) + 1):
+            for mode in MODES:
+                _roll_call(ctx, eqsig, rng, cont, w, w, mode)
+            total += 1
+        ctx.sample({'fn': 'calc_roll_av_vals', 'n': n, 'class': cls, 'steps': 'every width 1..%d' % min(n, 40),
+                    'modes': list(MODES)})
+    ctx.cases_enumerated(total, total, cls='rollav-every-width-1..40')
+    ctx.exhaustive['rollav_every_width_x_record'] = total
+
+
 def drive_rollav_long(ctx, eqsig, rng):
     """One series past 2**16 per shard: integer-valued (exact O(n) oracle), any window incl. 1, 2**16 and n."""
     n = 2 ** 16 + int(rng.integers(1, 6))
@@ -1904,6 +1932,7 @@ def run_shard(ctx):
     per = lambda total: total // ctx.nshards + 1
     drive_continuity(ctx, eqsig)
     drive_interp(ctx, eqsig, rng, per(8000 if quick else 80000))
+    drive_rollav_all_widths(ctx, eqsig, rng)
     drive_rollav(ctx, eqsig, rng, per(8000 if quick else 80000))
     drive_stepfit(ctx, eqsig, rng, per(6400 if quick else 64000))
     drive_spectra_random(ctx, eqsig, rng, per(4800 if quick else 48000))
